@@ -794,7 +794,13 @@ fn run(f: &[&str]) -> Option<String> {
                         }),
                         _ => false,
                     };
-                    if !good {
+                    // back-to-back decoding is promised for control messages and for data messages that carry a
+                    // Length field: a data message without one takes everything that follows as its payload
+                    let delimited = terms.iter().take(terms.len().saturating_sub(1)).all(|t| match t {
+                        TMsg::Data { len: None, .. } => false,
+                        _ => true,
+                    });
+                    if !good && delimited {
                         v.push("FAIL:c08-seq:sequential-decodes-differ-from-the-messages-written".to_string());
                     }
                     format!("enc={} dec={} | {}", hex(&buf), shown, join(v))
